@@ -41,18 +41,20 @@ def replay(verdict, tier, seed):
     consts = {"Den": "= 4", "MaxMove": "= 4", "Ks": "<- QuickKs" if tier == "quick" else "<- DeepKs", "NMin": "= 2",
               "NMax": "= 3" if tier == "quick" else "= 4", "Betas": "= {0, 1, 2, 4}" if tier == "quick" else "= {0, 1, 2, 3, 4}",
               "MaxIdx": "= 6" if tier == "quick" else "= 10"}
-    cases, r, ncases = tlacases.export_cases("MC_Resample", consts, name="resample", timeout=3000)
+    cases, r, ncases = tlacases.export_states("MC_Resample", consts, name="resample", timeout=3000)
     for c in cases:
         c["den"] = 4
     # fine ladder: temperature moves of 2^-21 and 2^-20 on log-weights of magnitude ~1e7
     fconsts = {"Den": "<- FineDen", "MaxMove": "= 2", "Ks": "<- FineKs", "NMin": "= 2",
                "NMax": "= 3" if tier == "quick" else "= 4", "Betas": "<- FineBetas",
                "MaxIdx": "= 3" if tier == "quick" else "= 6"}
-    fcases, fr, fncases = tlacases.export_cases("MC_Resample", fconsts, name="resample-fine", timeout=3000)
+    fcases, fr, fncases = tlacases.export_states("MC_Resample", fconsts, name="resample-fine", timeout=3000)
     for c in fcases:
         c["den"] = 2097152
     cases = cases + fcases
     ncases += fncases
+    if len(cases) > 40000:          # the replay is sequential: a strided sample of a very large case space
+        cases = cases[:: (len(cases) // 40000) + 1]
     nss = ["numpy", "torch", "jax"]
     combos = [(ns, dt) for ns in nss for dt in ("float64", "float32")]
     n_eval = 0
